@@ -619,8 +619,8 @@ func init() {
 		Assume: []string{"the property's arithmetic is its own reference; B-record columns per FAI IGC specification"},
 		Classes: []fw.Class{
 			{Name: "every-day", Quick: ndays, Thorough: ndays, Run: c19Days, Exhaustive: "every calendar day from 1970-01-01 to 2069-12-31"},
-			{Name: "tracks", Quick: 10000, Thorough: 600000, Run: c19Tracks},
-			{Name: "decode", Quick: 150000, Thorough: 10000000, Run: c19Decode, RawReplay: c19RawReplay},
+			{Name: "tracks", Quick: 25000, Thorough: 600000, Run: c19Tracks},
+			{Name: "decode", Quick: 400000, Thorough: 10000000, Run: c19Decode, RawReplay: c19RawReplay},
 			{Name: "i-tables", Quick: 30000, Thorough: 30000, Run: c19ITables, Exhaustive: "every I record with one extension, start/stop in 00..99, codes LAD/LOD/TDS (plus a second extension), B records of four lengths"},
 			{Name: "h-dte", Quick: 100000, Thorough: 1000000, Run: c19Dates, Exhaustive: "H DTE records over two-digit day, month, year fields (quick: years 00..09; thorough: all)"},
 		},
